@@ -107,7 +107,11 @@ impl PairModel {
     const nreq_dummy: () = ();
     /// Execute `acts` (already filtered or not); returns per-arena trace hashes and the worlds.
     fn exec<const M: usize>(&self, envp: *mut ExecEnv, steps: &[crate::mc::Step<PAct>], judge_last: bool, viol: &mut Vec<Violation>, na: usize, collect_enabled: Option<&mut Vec<PAct>>) -> ([u64; NA], u128) {
-        unsafe { (*envp).begin_execution() };
+        unsafe {
+            (*envp).begin_execution();
+            // requests up to the slab size are served (one arena of the pair may be huge)
+            (*envp).policy.cap = (*envp).slabs[0].size;
+        }
         if crate::util::static_dirty() {
             crate::util::restore_static();
         }
@@ -306,13 +310,18 @@ impl PairModel {
                     None => {
                         en.push(PAct::Create { who, cap: 0 });
                         en.push(PAct::Create { who, cap: 1 });
+                        if who == 0 && slots[j].steps == 0 {
+                            // one arena may be huge (threshold-type coupling through process-wide accounting)
+                            en.push(PAct::Create { who, cap: 20 << 20 });
+                        }
                     }
                     Some(w) => {
                         let p = w.observe();
                         en.push(PAct::Layout { who, size: 0, al: 0 });
                         en.push(PAct::Layout { who, size: 0, al: 4 });
                         en.push(PAct::Layout { who, size: 8, al: 0 });
-                        en.push(PAct::Layout { who, size: p.cap + 1, al: 0 });
+                        // (the huge arena only has to hold memory: no multi-megabyte blocks, which the oracles would fill and verify bytewise)
+                        en.push(PAct::Layout { who, size: if p.cap > (1 << 20) { 70_000 } else { p.cap + 1 }, al: 0 });
                         en.push(PAct::Alloc64 { who });
                         en.push(PAct::Reset { who });
                         en.push(PAct::SetLimit { who, some: true, val: p.ab });
